@@ -8,10 +8,10 @@
     invariants of the table, and prints the cell with the outcome the table implies.  (The matrix is
     split over a few TLC processes; deliberately wrong tables must be rejected by the invariants.)
  2. harness/c08_run.py executes EVERY cell on the real library through the public API, each as its
-    own program: on the controlled loop (stock and with the eager task factory) and with anyio.run on
-    plain asyncio (thorough: also uvloop), observing exactly what the property names: did a callback
-    queued right before the call run before it returned, which exception, the public projection of the
-    object before / after.
+    own program: on the controlled loop (stock and with the eager task factory), with anyio.run on
+    plain asyncio, and on uvloop (there the programs of a batch share one loop), observing exactly
+    what the property names: did a callback queued right before the call run before it returned, which
+    exception, the public projection of the object before / after.
  3. The recorded cells are judged by TLC: spec/T_Checkpoint.tla (generated) runs the observer
     spec/P_Checkpoint.tla (Checkpointed, PreCancelledRaises, PreCancelledNoEffect,
     OnlyDocumentedExemption) over every recorded observation.  A failed clause is a VIOLATION; a
@@ -175,7 +175,7 @@ def main(tier: str, seed: int) -> int:
     phases["tlc_matrix"] = round(time.time() - t0, 1)
 
     # 2. every cell on the real library
-    configs = ["vstock", "veager", "asyncio"] + (["uvloop"] if tier == "thorough" else [])
+    configs = ["vstock", "veager", "asyncio", "uvloop"]
     items = [{"i": i, "c": p["c"]} for i, p in enumerate(cells)]
     # thread cells are slow (real threads): spread them evenly
     rng = random.Random(seed)
